@@ -345,3 +345,23 @@ pub struct OnCallback<'info> {
     /// CHECK: this is just a placeholder.
     pub action: UncheckedAccount<'info>,
 }
+
+/// Verification-only re-exports of the private leaderboard / extension functions (no logic).
+#[cfg(gmsol_verif)]
+pub mod verif_hooks {
+    use super::*;
+
+    /// Calls the private `OnExecuted::update_leaderboard`.
+    pub fn update_leaderboard(comp: &mut Competition, part: &Participant) {
+        OnExecuted::update_leaderboard(comp, part)
+    }
+
+    /// Calls the private `OnExecuted::extend_competition_time`.
+    pub fn extend_competition_time(
+        comp: &mut Competition,
+        part: &Participant,
+        volume: u128,
+    ) -> Result<()> {
+        OnExecuted::extend_competition_time(comp, part, volume)
+    }
+}
